@@ -46,12 +46,23 @@ Definition ncase_segs (c : ncase) : list str := render (nc_a c) (nc_inst c).
 (** domain of the first-match specification: a well-formed URL of locale [a] in any spelling
     (repeated / trailing slashes allowed); the table may have overlapping routes, the path may match
     none *)
-Definition ncase_dom (c : ncase) : bool :=
+Definition ncase_dom_canonical (c : ncase) : bool :=
   valid_url_b (nc_names c) (nc_dflt c) (nc_atab c) (nc_a c) (nc_b c) (ncase_segs c)
   && base_ok_b (nc_base c) (nc_bsegs c)
   && list_eqb str_eqb (path_segments (nc_path c))
        (nc_bsegs c ++ prefix_of (nc_names c) (nc_dflt c) (nc_a c) ++ ncase_segs c)
   && old_ok (nc_dflt c) (nc_a c) (nc_old c).
+
+(** the URL carries an explicit prefix for its locale (in particular for the default locale:
+    "/en/about"), the [locale] argument is that locale *)
+Definition ncase_dom_explicit (c : ncase) : bool :=
+  valid_url_explicit_b (nc_names c) (nc_atab c) (nc_a c) (nc_b c) (ncase_segs c)
+  && base_ok_b (nc_base c) (nc_bsegs c)
+  && list_eqb str_eqb (path_segments (nc_path c))
+       (nc_bsegs c ++ name_of (nc_names c) (nc_a c) :: ncase_segs c)
+  && opt_nat_eqb (nc_old c) (Some (nc_a c)).
+
+Definition ncase_dom (c : ncase) : bool := ncase_dom_canonical c || ncase_dom_explicit c.
 
 Definition ncase_model (c : ncase) : res str :=
   get_new_path (nc_names c) (nc_dflt c) (nc_base c) (tabs_of (length (nc_names c)) (nc_atab c))
@@ -119,16 +130,32 @@ Definition hcase_expected (c : hcase) : list str :=
   map (fun ls' => render_path (hc_bsegs c ++ prefix_of (hc_names c) (hc_dflt c) (fst ls') ++ snd ls'))
       (expected_history (length (hc_names c)) (hc_atab c) (hc_a c) (hcase_segs c) (hc_ls c)).
 
-Definition hcase_dom (c : hcase) : bool :=
-  hist_valid_b (hc_names c) (hc_dflt c) (hc_atab c) (hc_a c) (hcase_segs c) (hc_ls c)
-  && base_ok_b (hc_base c) (hc_bsegs c)
-  && list_eqb str_eqb (path_segments (hc_path c))
-       (hc_bsegs c ++ prefix_of (hc_names c) (hc_dflt c) (hc_a c) ++ hcase_segs c)
+Definition hcase_common (c : hcase) : bool :=
+  base_ok_b (hc_base c) (hc_bsegs c)
   && (negb (hc_by_path c) || nodup_b (hc_names c))
   (* the harness re-parses every URL like a browser: nothing but the query may contain '?' and
      nothing but the fragment '#' *)
   && forallb no_qh (hc_path c :: hcase_expected c)
   && no_qh (hc_base c) && forallb (fun c' => negb (c' =? hashc)) (hc_search c).
+
+Definition hcase_dom_canonical (c : hcase) : bool :=
+  hist_valid_b (hc_names c) (hc_dflt c) (hc_atab c) (hc_a c) (hcase_segs c) (hc_ls c)
+  && list_eqb str_eqb (path_segments (hc_path c))
+       (hc_bsegs c ++ prefix_of (hc_names c) (hc_dflt c) (hc_a c) ++ hcase_segs c).
+
+(** the start URL carries an explicit prefix for its locale (also the default one) *)
+Definition hcase_dom_explicit (c : hcase) : bool :=
+  match hc_ls c with
+  | [] => false
+  | l :: ls => valid_url_explicit_b (hc_names c) (hc_atab c) (hc_a c) l (hcase_segs c)
+               && hist_valid_b (hc_names c) (hc_dflt c) (hc_atab c) l
+                    (expected_segs (length (hc_names c)) (hc_atab c) (hc_a c) l (hcase_segs c)) ls
+  end
+  && list_eqb str_eqb (path_segments (hc_path c))
+       (hc_bsegs c ++ name_of (hc_names c) (hc_a c) :: hcase_segs c).
+
+Definition hcase_dom (c : hcase) : bool :=
+  hcase_common c && (hcase_dom_canonical c || hcase_dom_explicit c).
 
 Definition hcase_model (c : hcase) : res (list str) :=
   match history (hc_names c) (hc_dflt c) (hc_base c) (tabs_of (length (hc_names c)) (hc_atab c))
